@@ -957,10 +957,11 @@ func main() {
 		bases = append(bases, b1, b2)
 	}
 
-	masks := []byte{0x01, 0x02, 0x04, 0x08, 0x10, 0x20, 0x40, 0x80}
+	masks8 := []byte{0x01, 0x02, 0x04, 0x08, 0x10, 0x20, 0x40, 0x80}
+	masks := masks8
 	bigMasks := []byte{0x01, 0x20, 0x80, 0xFF}
 	if thorough {
-		masks = masks[:0]
+		masks = nil
 		for m := 1; m < 256; m++ {
 			masks = append(masks, byte(m))
 		}
@@ -992,7 +993,11 @@ func main() {
 			sem <- struct{}{}
 			defer func() { <-sem }()
 			brng := rand.New(rand.NewSource(*seed*1000003 + int64(bi)))
-			bo.restore = runBase(bo.e, bi, b, bases, small[bi], thorough, brng, masks, bigMasks, bo.orders)
+			bmasks := masks
+			if thorough && bi >= 4 {
+				bmasks = masks8 // thorough: all 255 masks on the four smallest bases, the 8 single-bit ones on the others
+			}
+			bo.restore = runBase(bo.e, bi, b, bases, small[bi], thorough, brng, bmasks, bigMasks, bo.orders)
 			bo.e.w.Flush()
 		}(bi, b, bo)
 	}
